@@ -28,6 +28,7 @@ func init() {
 			{"C07-R5", "an unset exportTo is resolved through the mesh default when the export index is built", c07r5},
 			{"C07-R6", "the effective service exportTo always passes the ServiceEntry visibility clamp", c07r6},
 			{"C07-R7", "a DestinationRule is folded only into an entry that is exported no wider than the rule", c07r7},
+			{"C07-R8", "the mesh-default Sidecar is the root namespace Sidecar without workload selector", c07r8},
 		},
 	})
 }
@@ -935,4 +936,149 @@ func c07r7(c *Ctx) {
 	scan(fn, func(v ssa.Value) bool { return v == ssa.Value(incoming) }, func(v ssa.Value) bool { return fieldOfLoad(v) == exF }, 2)
 	c.Check("export comparisons in mergeDestinationRule found", fn.Pos(), n >= 1, "no SupersetOf/Equals comparison of the incoming and the entry's exportTo")
 	c.Floor(2)
+}
+
+// C07-R8: which Sidecar is the mesh-wide default. A proxy without an applicable Sidecar in its own namespace gets the
+// root namespace's Sidecar - the one WITHOUT a workload selector. A root-namespace Sidecar that selects workloads is an
+// ordinary Sidecar for those workloads; taken for the default it replaces every other namespace's view of the mesh
+// (services exported to them disappear, others appear). The value stored as sidecarIndex.meshRootSidecarConfig is
+// selected under both tests - namespace equals the mesh root namespace, workload selector is nil - whether the selection
+// is a loop in the function or a predicate literal handed to a find helper.
+func c07r8(c *Ctx) {
+	p := c.P
+	fn := p.Func(pkgModel, "PushContext", "initSidecarScopes")
+	fld := p.Field(pkgModel, "sidecarIndex", "meshRootSidecarConfig")
+	sts := storesTo(fn, fld)
+	c.Check("initSidecarScopes stores the mesh root Sidecar", fn.Pos(), len(sts) >= 1, "no store to sidecarIndex.meshRootSidecarConfig")
+	isNsTest := func(v ssa.Value) bool {
+		b, ok := v.(*ssa.BinOp)
+		if !ok || b.Op != token.EQL {
+			return false
+		}
+		fx, fy := fieldOfLoad(b.X), fieldOfLoad(b.Y)
+		if fx == nil || fy == nil {
+			return false
+		}
+		return fx.Name() == "Namespace" && fy.Name() == "RootNamespace" || fy.Name() == "Namespace" && fx.Name() == "RootNamespace"
+	}
+	isSelNil := func(v ssa.Value) (ok bool, eq bool) {
+		x, e, isNil := nilCmp(v)
+		if !isNil {
+			return false, false
+		}
+		if f := fieldOfLoad(x); f != nil && f.Name() == "WorkloadSelector" {
+			return true, e
+		}
+		if call, isCall := x.(*ssa.Call); isCall {
+			if o := calleeObj(call); o != nil && o.Name() == "GetWorkloadSelector" {
+				return true, e
+			}
+		}
+		return false, false
+	}
+	// edges of f on which the namespace test holds / the selector is nil
+	edgesOf := func(f *ssa.Function) (ns, sel []Edge) {
+		for _, i := range allIfs(f) {
+			v, neg := stripNot(i.Cond)
+			if isNsTest(v) {
+				idx := 0
+				if neg {
+					idx = 1
+				}
+				ns = append(ns, Edge{i.Block(), idx})
+			}
+			if ok, eq := isSelNil(i.Cond); ok {
+				idx := 1
+				if eq {
+					idx = 0
+				}
+				sel = append(sel, Edge{i.Block(), idx})
+			}
+		}
+		return
+	}
+	// value depends on both tests (a predicate written as one boolean expression)
+	dependsOnBoth := func(v ssa.Value) bool {
+		sawNs, sawSel := false, false
+		seen := map[ssa.Value]bool{}
+		var walk func(v ssa.Value, d int)
+		walk = func(v ssa.Value, d int) {
+			if v == nil || seen[v] || d > 8 {
+				return
+			}
+			seen[v] = true
+			if isNsTest(v) {
+				sawNs = true
+			}
+			if ok, _ := isSelNil(v); ok {
+				sawSel = true
+			}
+			switch x := v.(type) {
+			case *ssa.Phi:
+				for _, e := range x.Edges {
+					walk(e, d+1)
+				}
+			case *ssa.BinOp:
+				walk(x.X, d+1)
+				walk(x.Y, d+1)
+			case *ssa.UnOp:
+				walk(x.X, d+1)
+			}
+		}
+		walk(v, 0)
+		return sawNs && sawSel
+	}
+	msg := "the Sidecar stored as the mesh-wide default is not selected under both tests (namespace == mesh root namespace, no workload selector): a root-namespace Sidecar that selects workloads becomes the default scope of every namespace without a Sidecar of its own - those proxies lose the services exported to them and are given what that Sidecar imports instead"
+	for _, st := range sts {
+		var leaves []ssa.Value
+		phiLeaves(st.Val, map[ssa.Value]bool{}, &leaves)
+		n := 0
+		for _, l := range leaves {
+			if k, ok := l.(*ssa.Const); ok && k.IsNil() {
+				continue
+			}
+			n++
+			ok := false
+			switch x := l.(type) {
+			case *ssa.Call:
+				// a find helper with a predicate literal
+				for _, a := range x.Call.Args {
+					lit := litOfFuncValue(a)
+					if lit == nil {
+						continue
+					}
+					ns, sel := edgesOf(lit)
+					good := true
+					any := false
+					for _, b := range lit.Blocks {
+						r, isR := b.Instrs[len(b.Instrs)-1].(*ssa.Return)
+						if !isR || len(r.Results) != 1 {
+							continue
+						}
+						v := retVal(r, 0)
+						if k, isC := constBool(v); isC && !k {
+							continue
+						}
+						any = true
+						nsOK := underEdges(lit, b, ns)
+						selOK := underEdges(lit, b, sel)
+						if !(nsOK && selOK) && !dependsOnBoth(v) && !(nsOK && func() bool { s, _ := isSelNil(v); return s }()) && !(selOK && isNsTest(v)) {
+							good = false
+						}
+					}
+					if any && good {
+						ok = true
+					}
+				}
+			default:
+				if ins, isIns := l.(ssa.Instruction); isIns {
+					ns, sel := edgesOf(fn)
+					ok = underEdges(fn, ins.Block(), ns) && underEdges(fn, ins.Block(), sel)
+				}
+			}
+			c.Check("the mesh-default Sidecar is the root namespace's Sidecar without workload selector", st.Pos(), ok, msg)
+		}
+		c.Check("the mesh-default Sidecar has a selected value", st.Pos(), n >= 1, "only nil is ever stored as the mesh root Sidecar")
+	}
+	c.Floor(3)
 }
